@@ -91,14 +91,24 @@ def main(rep):
             if k == 3 and rep.tier == "quick" and rng.random() < 0.6:
                 continue
             mounted = [r for r in roots if rng.random() < 0.4]
-            args = []
-            for r in combo:
-                args += ["-w", r]
-            eroots = rng.choice([[], ["/a"], ["/", "/d"]])
-            for r in eroots:
-                args += ["-e", r]
+            # the same directory may be spelled in several ways on the command line (".", "..", relative):
+            # what counts is the directory it resolves to
+            def spell(r):
+                if rng.random() < 0.7:
+                    return r
+                return rng.choice([r.rstrip("/") + "/.", "/x/.." + (r if r != "/" else "/"), "." + r])
             real = {r: r for r in roots}
             real["."] = "/cwd"
+            args = []
+            for r in combo:
+                sp = spell(r)
+                real[sp] = r
+                args += ["-w", sp]
+            eroots = rng.choice([[], ["/a"], ["/", "/d"]])
+            for r in eroots:
+                sp = spell(r)
+                real[sp] = r
+                args += ["-e", sp]
             mcases.append(("m%d" % m, mc.main_case(args=args, real=real, mounted=mounted, slots=[]), (list(combo), eroots, mounted)))
             m += 1
     # malformed command lines: nothing may be mounted or watched
@@ -173,7 +183,7 @@ def main(rep):
                                      "root sets on main()": len(mcases)}
     rep.cov["rule"] = ("every argv up to length %d over {-c,-d,-w,-e,-h,-v,-x,--,x,'',-wx} through the real parse_params, judged by a reference parser written from the "
                        "documented grammar; all pairs of 11 canonical paths through get_common_parent_path_length against 'deepest common directory'; the real main() on every "
-                       "sequence of 1-3 write roots from {/, /a, /a/b, /a/c, /d} (equal, nested, disjoint, the root directory) with random mount tables and exec roots: "
+                       "sequence of 1-3 write roots from {/, /a, /a/b, /a/c, /d} (equal, nested, disjoint, the root directory; about a third spelled non-canonically, e.g. '/a/.', '/x/../a') with random mount tables and exec roots: "
                        "a directory is bind-mounted exactly when not yet a mount point, every root marked, offset of relative paths = deepest common directory; malformed "
                        "command lines rejected before anything is mounted or watched" % maxlen)
     rep.cov["samples"] = [pcases[100][1], mcases[10][1].split("\n")[:3]]
